@@ -91,7 +91,7 @@ def ignored_want_then_stale(rng, world):
     for dtid, dt, mod in W.iter_doctests(world):
         steps = dt['steps']
         wanted = [j for j, st in enumerate(steps) if st.get('want') in ('acc', 'last', 'repr') and not st.get('inline')
-                  and st['form'] not in ('tq', 'tqprint', 'bgtask')]
+                  and st['form'] not in gen.NO_INLINE_FORMS]
         for a in wanted:
             for b in wanted:
                 if b > a and stale_sources(steps, a + 1):
